@@ -33,10 +33,24 @@ func genAccept(r *Rng, produces []string) string {
 	}
 	n := 1 + r.Intn(4)
 	if r.Pct(6) {
-		n = 12 + r.Intn(10) // long headers: any number of ranges, many of them tied on q
+		n = 12 + r.Intn(14) // long headers: any number of ranges, many of them tied on q
 	}
+	buried := n >= 12 && len(produces) > 0 && r.Bool() // the only producible ranges: a weak one first, the best one last
 	ranges := []string{}
 	for i := 0; i < n; i++ {
+		if buried {
+			switch {
+			case i == n-1:
+				ranges = append(ranges, r.Pick(produces))
+				continue
+			case i == 0 && len(produces) > 1:
+				ranges = append(ranges, produces[0]+";q=0.1")
+				continue
+			default:
+				ranges = append(ranges, r.Pick([]string{"text/html", "image/webp", "application/jsonx", "application/xhtml+xml"})+";q=0."+itoa(1+r.Intn(9)))
+				continue
+			}
+		}
 		var media string
 		switch p := r.Intn(100); {
 		case p < 50 && len(produces) > 0:
